@@ -12,7 +12,7 @@ Atomic steps = the lock regions of `loader/filebased.go` at HEAD; core Lean only
 | `entry = l.GetEntry(name)` (RLock) — the second look                                  | step of `ldCheck`      |
 | `find` → `findExistingPath` (the path index, under `l.lock`)                          | step of `ldFind`       |
 | no file: `SetEntry(placeholder)`; answer not-found                                    | step of `ldCacheMiss`  |
-| `instantiate`: `locksLock` region — take the name's mutex from `l.locks` or make one  | step of `instTable`    |
+| `instantiate`: `verifhook.Point("filebased.instantiate.enter")`; `locksLock` region — take the name's mutex from `l.locks` or make one | step of `instTable` |
 | `nameLock.Lock()` — only possible while nobody holds that mutex                        | step of `instAcquire`  |
 | `l.GetEntry(name) == nil` (RLock)                                                      | step of `instCheck`    |
 | `l.SetEntry(name, placeholder)`; `verifhook.Point("filebased.instantiate.placeholder")` | step of `instPlace`  |
@@ -149,8 +149,9 @@ def Config.init (files : List (Key × V)) (progs : List (List Key)) : Config :=
 
 def isYield : PC → Bool
   | .idle => true
-  | .ldCheck _ => true
-  | .instRun _ _ => true
+  | .ldCheck _ => true                 -- "filebased.loadentry"
+  | .instTable _ => true               -- "filebased.instantiate.enter"
+  | .instRun _ _ => true               -- "filebased.instantiate.placeholder"
   | _ => false
 
 def Thread.finished (t : Thread) : Bool := t.pc = .idle && t.ops.isEmpty
@@ -162,10 +163,19 @@ def runToYield : Nat → Config → Nat → Config
     | none => c
     | some t => if isYield t.pc then c else runToYield fuel (stepAt c i) i
 
+/-- a thread parked at the entry of `instantiate` would block in `nameLock.Lock()` while another thread is parked
+    between the placeholder and the instantiator of the same name (it holds the name's mutex, which is still in the
+    table): the harness does not release such a thread, and neither does this scheduler -/
+def blockedAt (c : Config) (i : Nat) (t : Thread) : Bool :=
+  match t.pc with
+  | .instTable k =>
+    (c.th.zipIdx.any fun (u, j) => j != i && (match u.pc with | .instRun k' _ => k' == k | _ => false))
+  | _ => false
+
 def release (c : Config) (i : Nat) : Config :=
   match c.th[i]? with
   | none => c
-  | some t => if t.finished then c else runToYield 16 (stepAt c i) i
+  | some t => if t.finished || blockedAt c i t then c else runToYield 16 (stepAt c i) i
 
 def runSched (c : Config) : List Nat → Config
   | [] => c
@@ -175,8 +185,12 @@ def drainThread : Nat → Config → Nat → Config
   | 0, c, _ => c
   | fuel + 1, c, i => drainThread fuel (release c i) i
 
+/-- one pass over the threads in id order, each released until it has finished or is blocked -/
+def drainPass (c : Config) : Config :=
+  (List.range c.th.length).foldl (fun c i => drainThread (4 * (c.th.getD i default).ops.length + 4) c i) c
+
 def execute (files : List (Key × V)) (progs : List (List Key)) (sched : List Nat) : Config :=
   let c := runSched (Config.init files progs) sched
-  (List.range c.th.length).foldl (fun c i => drainThread (3 * (c.th.getD i default).ops.length + 3) c i) c
+  (List.range c.th.length).foldl (fun c _ => drainPass c) c
 
 end Pcore.Instantiate
